@@ -250,7 +250,11 @@ func (g *docGen) selection(t *GType, depth int, ind string, sc *scope, inFrag bo
 		g.field(&b, t, f, depth, ind, sc, inFrag)
 	}
 	if r.Chance(1, 5) {
-		b.WriteString(ind + "__typename\n")
+		if g.fault("misspelt-typename", 6) {
+			b.WriteString(ind + Pick(r, []string{"__typenam", "typename", "__typeName", "_typename"}) + "\n")
+		} else {
+			b.WriteString(ind + "__typename\n")
+		}
 	}
 	if t.Kind == "INTERFACE" && r.Chance(1, 2) {
 		g.abstractSpreads(&b, t, depth, ind, sc, inFrag)
